@@ -33,6 +33,7 @@ type FuncSpec struct {
 	Params     []string
 	Results    []string
 	Pure       bool
+	PureConst  bool // pure and independent of the heap: a function of its arguments only
 	Inline     bool
 	Trusted    bool // contract assumed, body not verified (listed as assumption)
 	Clauses    []*Clause
@@ -92,11 +93,11 @@ func newSpecFile() *SpecFile {
 	}
 }
 
-var clauseHead = regexp.MustCompile(`^(requires|ensures|modifies|invariant|decreases|panics_iff|ensures_on_panic|assert)(\[[^\]]*\])?\s*(.*)$`)
+var clauseHead = regexp.MustCompile(`^(requires|ensures|maintains|modifies|invariant|decreases|panics_iff|ensures_on_panic|assert)(\[[^\]]*\])?\s*(.*)$`)
 
 var knownKeywords = map[string]bool{
 	"func": true, "iface": true, "ghost": true, "smtfun": true, "spec": true, "axiom": true, "lemma": true,
-	"requires": true, "ensures": true, "modifies": true, "pure": true, "inline": true, "let": true, "loop": true,
+	"requires": true, "ensures": true, "maintains": true, "modifies": true, "pure": true, "pure_const": true, "inline": true, "let": true, "loop": true,
 	"panics_iff": true, "ensures_on_panic": true, "replay": true, "nopanic": true, "params": true, "results": true,
 	"trusted": true, "floor": true, "callee": true, "use": true, "extern": true,
 }
@@ -253,6 +254,9 @@ func (sf *SpecFile) load(path string, extern bool) error {
 			switch {
 			case first == "pure":
 				cur.Pure = true
+			case first == "pure_const":
+				cur.Pure = true
+				cur.PureConst = true
 			case first == "inline":
 				cur.Inline = true
 			case first == "trusted":
@@ -340,7 +344,23 @@ func (sf *SpecFile) load(path string, extern bool) error {
 					}
 					c.Expr = e
 				}
-				cur.Clauses = append(cur.Clauses, c)
+				if c.Kind == "maintains" {
+					// an invariant of the function: assumed on entry, proved on exit
+					pre := *c
+					pre.Kind = "requires"
+					counts["requires"]++
+					pre.Index = counts["requires"]
+					post := *c
+					post.Kind = "ensures"
+					counts["ensures"]++
+					post.Index = counts["ensures"]
+					if post.Label == "" {
+						post.Label = fmt.Sprintf("maintains%d", c.Index)
+					}
+					cur.Clauses = append(cur.Clauses, &pre, &post)
+				} else {
+					cur.Clauses = append(cur.Clauses, c)
+				}
 			}
 		}
 	}
